@@ -474,6 +474,9 @@ func checkC12(P *Prog, r *Result) {
 	// earlier element or an earlier call (C01's child-clean rule)
 	shareRule(P, r, checkC16, "C16/no-shared-backing", nil, "C12/callbacks-not-overwritten", 4)
 	shareRule(P, r, checkC01, "C01/child-clean", nil, "C12/callbacks-not-cut-short", 15)
+	// the callbacks of a struct field run on the field of that name of *this* destination: the field is selected
+	// by the iteration's own key, not through an index cached from another destination type (C03's rule)
+	shareRule(P, r, checkC03, "C03/struct-writes-by-field", nil, "C12/callback-gets-own-field", 1)
 }
 
 // errResultGuardsIssue: the error result (last extract) of call c is compared
